@@ -3,7 +3,11 @@ package props
 import (
 	"testing"
 
+	"verif/harness/chain"
 	"verif/harness/evid"
 )
 
-func TestMain(m *testing.M) { evid.Main(m) }
+func TestMain(m *testing.M) {
+	chain.Init()
+	evid.Main(m)
+}
